@@ -211,7 +211,10 @@ pub fn run(req: &J) -> J {
     let mut names: Vec<String> = store.keys().filter(|n| n.as_str() != "ans" && n.chars().all(|c| c.is_ascii_alphanumeric()) && n.chars().next().map(|c| c.is_ascii_alphabetic()).unwrap_or(false)).cloned().collect();
     names.sort();
     names.truncate(max_names);
-    let mut probe_texts: Vec<String> = vec!["zzundefq = 1".to_string(), "zzundefq[1] = 1".to_string(), "zzundefq += 1".to_string()];
+    let mut probe_texts: Vec<String> = vec!["zzundefq = 1".to_string(), "zzundefq[1] = 1".to_string(), "zzundefq += 1".to_string(),
+      // destructuring with one target more than the tuple has elements: fails and defines nothing
+      "(zzq1, zzq2, zzq3) := (1, 2)".to_string(), "zzt := (1, 2)".to_string(), "(zzq4, zzq5, zzq6) := zzt".to_string(),
+      "(zzq7, zzq8) := (1, 2, 3)".to_string()];
     for (i, n) in names.iter().enumerate() {
       probe_texts.push(format!("{}", n));
       probe_texts.push(format!("{} := 1", n));
